@@ -59,7 +59,7 @@ mut "Ready bit of a feature applied at once (features.go before 7abe030)" 's/  o
 mut "features whose prerequisites do not hold are not cached (features.go before ca01fdb)" "s/(cache_add f req' (fl_cache acc1)))/(if allowed ft bits then cache_add f req' (fl_cache acc1) else fl_cache acc1))/"
 mut "error of a custom List step swallowed (seeded change m8)" 's/  | VList _ e => e/  | VList _ e => false/'
 mut "error of a custom Parse step swallowed" 's/  | VParse _ e => e/  | VParse _ e => false/'
-mut "deadline not kept expired after the cancellation (session.go before e0a2b45)" 's/| Some c => p_deadline pl \&\& ((c <? i) || ((i =? c) \&\& p_entry pl))/| Some c => p_deadline pl \&\& ((i =? c) \&\& p_entry pl)/'
+mut "deadline not kept expired after the cancellation (session.go before e0a2b45)" 's/| Some c => p_deadline pl \&\& watched pl \&\& ((c <? i) || ((i =? c) \&\& p_entry pl))/| Some c => p_deadline pl \&\& watched pl \&\& ((i =? c) \&\& p_entry pl)/'
 mut "restart keeps the tokens buffered by the old decoder" 's/| RSSame => mkW (w_ops w) (drop_to_brk (w_script w))/| RSSame => mkW (w_ops w) (w_script w)/'
 mut "List error without the deferred partial flush" 's/                      (fun _ => wru WPartial ;;; Fail)/                      (fun _ => Fail)/'
 mut "mask of a feature applied only by the session loop (not in negotiateFeatures)" 's/  or_bits (N.ldiff (fst o) st_Ready) ;;;/  Ret tt ;;;/'
@@ -68,3 +68,5 @@ mut "component: <handshake/> accepted without reading its end" 's/| Open KHandsh
 mut "bind result accepted without reading the whole element" 's/| Open (KIq ok) => skip n 0 ;;; guard ok ;;; Ret (st_Ready, RSNone)/| Open (KIq ok) => guard ok ;;; Ret (st_Ready, RSNone)/'
 mut "ws: <open/> accepted without reading its end" 's/(if ws then skip n'"'"' 0 else Ret tt) ;;;/Ret tt ;;;/'
 mut "starttls client: <proceed> accepted without reading its end" 's/| Open (KSel _ EProceed) => skip n 0 ;;; Ret (st_Secure, RSTls)/| Open (KSel _ EProceed) => Ret (st_Secure, RSTls)/'
+mut "a context that carries a deadline is not watched (seeded change m9)" 's/  if p_ctx_deadline pl then setdeadline_watcher_unconditional else true\./  if p_ctx_deadline pl then false else true./'
+
